@@ -32,6 +32,8 @@ def parseObs (tok : String) : Obs :=
   | ["rd", s, n] => match parseNat s, parseInt n with | some s, some n => .rd s n | _, _ => .other
   | ["crst", s] => match parseNat s with | some s => .crst s | none => .other
   | ["closed"] => .closed
+  | ["busy"] => .skipped
+  | ["nohandler"] => .skipped
   | _ => .other
 
 def parseBool (s : String) : Option Bool := if s == "1" then some true else if s == "0" then some false else none
